@@ -431,6 +431,12 @@ MUTANTS = [
         self.push_jump_back_op(Op::JumpBack, &[], iter_start_ip)?;""", expect="V-codegen2::Compiler::compile_export_iterable::every_entry_exported_loop_left_when_exhausted"),
     dict(name="codegen2_export_iterable_registers_not_released", kind="break", prop="C01", units=["V-codegen2"], file="crates/bytecode/src/compiler.rs",
          old="        self.update_offset_placeholder(iter_finished_offset)?;\n        self.truncate_register_stack(stack_count)?;", new="        self.update_offset_placeholder(iter_finished_offset)?;", expect="V-codegen2::Compiler::compile_export_iterable::temporaries_released"),
+    # ---- F41
+    dict(name="arith_f41_registers_of_the_call_left_on_the_value_stack", kind="break", prop="C17", units=["V-arith"], file="crates/runtime/src/vm.rs",
+         old="""                    $self.registers.truncate(old_register_count);
+                    result
+                }""", new="""                    result
+                }""", expect="V-arith::KotoVm::run_add::no_register_left_behind_once_the_call_has_run"),
     # ---- V-callseq
     dict(name="callseq_piped_value_last", kind="break", prop="C02", units=["V-callseq"], file="crates/bytecode/src/compiler.rs",
          old="""        let arg_offset = if let Some(piped_arg) = piped_arg {
